@@ -211,16 +211,6 @@ fn load_honest(t: &Target, k: &Key, rt: &tokio::runtime::Runtime) -> Message {
 fn main() {
     // a stack overflow / abort in the code under test must become a verdict, not a dead check
     vcore::supervise("C07");
-    if std::env::var("C07_REC_DEBUG").is_ok() {
-        let rt = vsim::rt();
-        let hier = Arc::new(hiers::build("recursor"));
-        for q in hier.queries.clone() {
-            let run = recursor::run_recursor_case(&hier, &q, &[], true, &rt);
-            eprintln!("== {} {} -> {:?}", q.0, q.1, format!("{:?}", run.outcome).chars().take(900).collect::<String>());
-            eprintln!("   log: {:?}", run.log);
-        }
-        std::process::exit(0);
-    }
     let ctx = Ctx::from_args("C07", "fault_enumeration");
     let thorough = !ctx.quick();
     let rt = vsim::rt();
